@@ -27,11 +27,18 @@ Two variants of the repair are modelled (`Repair.strict`): the non-strict one ab
 project's unit tests stay as they are): `never_rejected_repaired_v2`, `summary_never_rejected_repaired_v2`,
 `never_rejected_patch_v2` — under the extra explicit hypothesis `4·n·W·2^-53 < 1` (rows × total query abundance
 < 2^51), proved from two-sided per-lineage bounds (`Lemmas/TaxFloat2.lean`).
+Classification in binary64: `classification_lowest_rank_f64` (the loop picks a float-maximal lineage at the lowest rank
+whose double meets the threshold; uses `GoodLt f64`, proved in `Lemmas/TaxFloatOrder.lean`), `float_argmax_is_exact_argmax`
+(n·N < 2^53/3 ⇒ the float arg-max holds at least as many hashes as every other lineage; exact ties may go either way),
+`float_threshold_vs_exact`.  Writers that format numbers: `percent_text_is_nearest`, `kreport_bp_within_one`,
+`kreport_parent_short_by_at_most_one`, `kreport_truncation_example` (finding C19.1).  Several queries:
+`multi_query_conservation`.
 Which of the two shapes the source has is re-read by the translator on every run (`Sm.Gen.taxRepaired`)
 and the executable model follows it (`Tax.f64Repair`).
 -/
 import SmVerif.Lemmas.TaxResult
-import SmVerif.Lemmas.TaxFloat2
+import SmVerif.Lemmas.TaxKreport
+import SmVerif.Lemmas.TaxMulti
 
 namespace Sm.C19
 
@@ -282,6 +289,48 @@ theorem classification_lowest_rank (rp : Option (Repair ℚ)) (g : Gather ν) (h
             omega
           · have : r1 = r := (Prod.mk.inj hin).1
             omega
+
+/-! ### several queries -/
+
+/-- **conservation for a multi-query run** (`tax metagenome` with several gather results; krona aggregation
+`aggregate_by_lineage_at_rank(by_query=False)`): every query is summarised on its own (so all the theorems above hold
+per query), and the aggregated table — per-lineage sums over the queries divided by the number of queries — again
+accounts for exactly 100 % at a rank every query has.  `keyOf` is the display string the implementation aggregates by. -/
+theorem multi_query_conservation {κ : Type} [DecidableEq κ] (rp : Option (Repair ℚ)) (gs : List (Gather ν))
+    (hne : gs ≠ []) (hv : ∀ g ∈ gs, g.Valid ∧ RepairOK rp g.N) (r : Nat) (keyOf : Lineage ν → κ)
+    (ess : List (List (Entry ℚ ν)))
+    (hess : List.Forall₂ (fun g es => buildRank ratA rp g.qbp r (g.tbl r) = .ok es) gs ess) :
+    ((aggregateAt ratA (fun x n => x / (n : ℚ)) keyOf r ess).map Prod.snd).sum = 1 := by
+  rw [aggregateAt_sum]
+  have hlen : ess.length = gs.length := hess.length_eq.symm
+  have hall : ∀ es ∈ ess, ((es.filter (fun e => e.rank = r)).map (·.f)).sum = 1 := by
+    intro es hes
+    obtain ⟨g, hg, hb⟩ : ∃ g ∈ gs, buildRank ratA rp g.qbp r (g.tbl r) = .ok es := by
+      clear hne hlen
+      induction hess with
+      | nil => cases hes
+      | cons hab _ ih =>
+        rcases List.mem_cons.mp hes with he | he
+        · subst he; exact ⟨_, List.mem_cons_self .., hab⟩
+        · obtain ⟨g, hg, hb⟩ := ih (fun g hg => hv g (List.mem_cons_of_mem _ hg)) he
+          exact ⟨g, List.mem_cons_of_mem _ hg, hb⟩
+    obtain ⟨hvg, hrp⟩ := hv g hg
+    have hcons := (conservation rp g hvg hrp r es hb).1
+    have hfil : es.filter (fun e => e.rank = r) = es := by
+      rw [List.filter_eq_self]
+      intro e he
+      rcases (mem_result rp g hvg hrp r es hb e).mp he with ⟨x, _, rfl⟩ | hrem
+      · simp [toEntry]
+      · unfold Gather.rem at hrem
+        split at hrem
+        · simp at hrem; subst hrem; simp [remainder]
+        · cases hrem
+    rw [hfil]; exact hcons
+  rw [sum_flatMap_const ess r hall, hlen]
+  have : (gs.length : ℚ) ≠ 0 := by
+    have : gs.length ≠ 0 := by intro h; exact hne (List.length_eq_zero_iff.mp h)
+    exact_mod_cast this
+  exact div_self this
 
 /-! ### output formats: every writer prints entries of the one summarised table -/
 
@@ -724,6 +773,172 @@ theorem patch_v2_accepts_counterexamples :
     (match buildRank f64 (some patchRepairV2) 6 0 (sumAtRank f64 (oneLineage 6 [4, 1, 1] [4, 1, 1] 6).toF 0) with
      | .ok [e] => e.bp == 6
      | _ => false) = true := by decide +kernel
+
+
+/-! ### classification in binary64 (the repaired code) -/
+
+/-- **classification_lowest_rank, in the binary64 model** (either variant of the tolerance repair; threshold a
+non-negative double ≤ 1.0).  The answer is a lineage `c.lin` of the float table of rank `c.rank` whose summed double is
+maximal *as a double* at that rank; at every lower summarized rank every lineage's double is below the threshold;
+status `match` iff the double is not below the threshold; otherwise `below_threshold` at the highest summarized rank.
+The reported fractions are the sums clamped with `min(·, 1.0)`. -/
+theorem classification_lowest_rank_f64 (g : Gather ν) (hv : g.Valid) (p : Repair SF)
+    (hp : RepairF p g.rows.length) (hn : 2 * ((g.rows.length : ℚ) + 1) * u ≤ 1) (nranks : Nat)
+    (thr : SF) (ht : thr.neg = false) (ht1 : thr.a.toQ ≤ 1) :
+    match classify f64 (some p) nranks g.toF none (some thr) true with
+    | .error e => e = .noRanks ∧ summarizedRanks nranks g.toF = []
+    | .ok none => False
+    | .ok (some c) =>
+      c.rank ∈ summarizedRanks nranks g.toF ∧
+      ∃ a : Tax.Acc SF, (c.lin, a) ∈ sumAtRank f64 g.toF c.rank ∧ c.f = clamp1 a.f ∧ c.fw = clamp1 a.fw ∧ c.bp = a.bp ∧
+        (∀ y ∈ sumAtRank f64 g.toF c.rank, SF.lt a.f y.2.f = false) ∧
+        (∀ r0 ∈ summarizedRanks nranks g.toF, c.rank < r0 → ∀ y ∈ sumAtRank f64 g.toF r0, SF.lt y.2.f thr = true) ∧
+        ((c.status = .match_ ∧ SF.lt a.f thr = false) ∨
+         (c.status = .below ∧ SF.lt a.f thr = true ∧ ∀ r0 ∈ summarizedRanks nranks g.toF, c.rank ≤ r0)) := by
+  unfold classify
+  simp only [Bool.not_true, Bool.false_eq_true, if_false]
+  cases hsr : summarizedRanks nranks g.toF with
+  | nil => simp
+  | cons r0 rs =>
+    simp only [List.isEmpty_cons, Bool.false_eq_true, if_false]
+    rw [← hsr]
+    set sr := summarizedRanks nranks g.toF with hsrdef
+    set l := sr.reverse.map (fun r => (r, sumAtRank f64 g.toF r)) with hl
+    have hmem : ∀ q ∈ l, q.1 ∈ sr ∧ q.2 = sumAtRank f64 g.toF q.1 := by
+      intro q hq
+      rw [hl, List.mem_map] at hq
+      obtain ⟨r, hr, rfl⟩ := hq
+      exact ⟨List.mem_reverse.mp hr, rfl⟩
+    have hne : ∀ q ∈ l, q.2 ≠ [] := by
+      intro q hq
+      obtain ⟨h1, h2⟩ := hmem q hq
+      rw [h2]
+      rw [mem_summarizedRanks] at h1
+      exact sumAtRank_ne_nil f64 g.toF q.1 h1.2
+    have hchk : ∀ q ∈ l, ∀ x ∈ q.2, checkValues f64 (some p) x.2.f x.2.fw = .ok (clamp1 x.2.f, clamp1 x.2.fw) ∧
+        f64.lt (clamp1 x.2.f) thr = f64.lt x.2.f thr := by
+      intro q hq x hx
+      obtain ⟨_, h2⟩ := hmem q hq
+      rw [h2] at hx
+      have hb := float_sums_within_tolerance g hv p hp hn q.1 x hx
+      exact ⟨checkValuesR_val p _ hp _ _ hb.1 hb.2.1 hb.2.2.1 hb.2.2.2, clamp1_lt_thr _ _ hb.1.1 ht ht1⟩
+    obtain ⟨c, hc1, hc2⟩ := classifyLoop_specC f64 f64_goodLt clamp1 thr l none hne (some p) hchk
+    rw [hc1]
+    have hlne : l ≠ [] := by rw [hl, hsr]; simp
+    rcases hc2 with ⟨hnil, _⟩ | ⟨pre, post, r, t, x, st, hsplit, hcx, hxt, hmax, hpre, hst⟩
+    · exact absurd hnil hlne
+    · subst hcx
+      have hrt : (r, t) ∈ l := by rw [hsplit]; simp
+      obtain ⟨hr1, hr2⟩ := hmem (r, t) hrt
+      simp only at hr1 hr2
+      subst hr2
+      have hsorted : l.Pairwise (fun a b => b.1 < a.1) := by
+        rw [hl, List.pairwise_map, List.pairwise_reverse]
+        exact summarizedRanks_sorted nranks g.toF
+      rw [hsplit, List.pairwise_append] at hsorted
+      obtain ⟨_, hpost, hcross⟩ := hsorted
+      have hpost' := (List.pairwise_cons.mp hpost).1
+      dsimp only
+      refine ⟨hr1, x.2, hxt, rfl, rfl, rfl, hmax, ?_, ?_⟩
+      · intro r1 hr1m hlt y hy
+        have hin : (r1, sumAtRank f64 g.toF r1) ∈ l := by
+          rw [hl, List.mem_map]; exact ⟨r1, List.mem_reverse.mpr hr1m, rfl⟩
+        rw [hsplit, List.mem_append, List.mem_cons] at hin
+        rcases hin with hin | hin | hin
+        · exact hpre _ hin y hy
+        · have : r1 = r := (Prod.mk.inj hin).1
+          omega
+        · have := hpost' _ hin
+          simp only at this
+          omega
+      · rcases hst with ⟨rfl, hge⟩ | ⟨rfl, hlt, hpostnil⟩
+        · left; exact ⟨rfl, hge⟩
+        · right
+          refine ⟨rfl, hlt, ?_⟩
+          intro r1 hr1m
+          have hin : (r1, sumAtRank f64 g.toF r1) ∈ l := by
+            rw [hl, List.mem_map]; exact ⟨r1, List.mem_reverse.mpr hr1m, rfl⟩
+          rw [hsplit, hpostnil, List.mem_append, List.mem_singleton] at hin
+          rcases hin with hin | hin
+          · have := hcross _ hin (r, sumAtRank f64 g.toF r) (by simp)
+            simp only at this
+            omega
+          · have : r1 = r := (Prod.mk.inj hin).1
+            omega
+
+/-- **float arg-max is the exact arg-max** when `3·n·N·2^-53 < 1` (rows × query hashes < 2^53/3 ≈ 3.0e15): a lineage
+whose summed double is maximal at a rank holds at least as many hashes as every other lineage of that rank.
+Tie condition, precisely: among lineages with *equal* exact hash counts the doubles may differ in the last bits
+(different addition orders), so any of the exactly-tied lineages can be the one picked — not necessarily the one gather
+met first; lineages with a strictly smaller exact count are never picked. -/
+theorem float_argmax_is_exact_argmax (g : Gather ν) (hv : g.Valid) (r : Nat)
+    (hsmall : 3 * (g.rows.length : ℚ) * g.N * u < 1)
+    (x : Lineage ν × Tax.Acc SF) (hx : x ∈ sumAtRank f64 g.toF r)
+    (hmax : ∀ y ∈ sumAtRank f64 g.toF r, SF.lt x.2.f y.2.f = false) :
+    ∀ y ∈ sumAtRank f64 g.toF r, kU r g.rows y.1 ≤ kU r g.rows x.1 := by
+  intro y hy
+  obtain ⟨_, _, _, _, hin⟩ := tbl_bnd2 g hv r
+  have hKY : kU r g.rows y.1 ≤ g.N := le_trans (ksum_filter_le _ _) hv.kle
+  exact exact_max_of_float_max _ _ g.N g.rows.length hv.hN hKY x.2.f y.2.f (hin x hx).1 (hin y hy).1 (hmax y hy) hsmall
+
+/-- **float threshold test versus the exact fraction**: a lineage whose double is not below the threshold has exact
+fraction ≥ thr/(1+u)^n; one whose double is below it has exact fraction < thr/(1-u)^n.  (So the decision is the exact
+one unless the exact fraction is within a factor (1±2^-53)^n of the threshold.) -/
+theorem float_threshold_vs_exact (g : Gather ν) (hv : g.Valid) (r : Nat) (thr : SF) (ht : thr.neg = false)
+    (x : Lineage ν × Tax.Acc SF) (hx : x ∈ sumAtRank f64 g.toF r) :
+    (SF.lt x.2.f thr = false → thr.a.toQ ≤ (kU r g.rows x.1 : ℚ) / g.N * (1 + u) ^ g.rows.length) ∧
+    (SF.lt x.2.f thr = true → (kU r g.rows x.1 : ℚ) / g.N * (1 - u) ^ g.rows.length < thr.a.toQ) := by
+  obtain ⟨_, _, _, _, hin⟩ := tbl_bnd2 g hv r
+  have hw := (hin x hx).1
+  constructor
+  · intro h
+    have := (sf_lt_false_iff x.2.f thr).mp h
+    rw [sfQ_nonneg _ hw.1.1, sfQ_nonneg _ ht] at this
+    exact le_trans this hw.2.2
+  · intro h
+    have := (sf_lt_iff x.2.f thr).mp h
+    rw [sfQ_nonneg _ hw.1.1, sfQ_nonneg _ ht] at this
+    exact lt_of_le_of_lt hw.2.1 this
+
+
+/-! ### the writers that format numbers (kreport, bioboxes, human) -/
+
+/-- the percentage text `'%.kf'` is the decimal nearest to the exact binary value of the double: `|h − x·10^k| ≤ 1/2`
+(`h` = the printed number times `10^k`) -/
+theorem percent_text_is_nearest (x : F) (k : Nat) :
+    (fmtDec x k : ℚ) - 1 / 2 ≤ x.toQ * 10 ^ k ∧ x.toQ * 10 ^ k ≤ (fmtDec x k : ℚ) + 1 / 2 :=
+  fmtDec_nearest x k
+
+/-- **kreport `num_bp_contained` (finding C19.1, the bound)**: for a classified lineage the reported integer
+`int(f_weighted * total_bp)` is the exact weighted base pairs `w_L·scaled` of the matches under it, or ONE less —
+never more, never two less — when `total_bp = W·scaled < 2^53` and `2(n+1)·total_bp·2^-53 < 1` -/
+theorem kreport_bp_within_one (g : Gather ν) (hv : g.Valid) (r : Nat) (x : Lineage ν × Tax.Acc SF)
+    (hx : x ∈ sumAtRank f64 g.toF r) (hT : g.W * g.scaled < 2 ^ 53)
+    (hsmall : 2 * ((g.rows.length : ℚ) + 1) * ((g.W * g.scaled : Nat) : ℚ) * u < 1)
+    (hn : 2 * ((g.rows.length : ℚ) + 1) * u ≤ 1) :
+    kreportBp x.2.fw (g.W * g.scaled) ≤ wU r g.rows x.1 * g.scaled ∧
+    wU r g.rows x.1 * g.scaled ≤ kreportBp x.2.fw (g.W * g.scaled) + 1 :=
+  kreportBp_bounds g hv r x hx hT hsmall hn
+
+/-- **finding C19.1, precisely**: in kreport a parent can report fewer base pairs than its reported children together,
+but by at most ONE base pair, however many children there are -/
+theorem kreport_parent_short_by_at_most_one (g : Gather ν) (hv : g.Valid) (r r' : Nat) (hr : r ≤ r')
+    (hT : g.W * g.scaled < 2 ^ 53)
+    (hsmall : 2 * ((g.rows.length : ℚ) + 1) * ((g.W * g.scaled : Nat) : ℚ) * u < 1)
+    (hn : 2 * ((g.rows.length : ℚ) + 1) * u ≤ 1)
+    (x : Lineage ν × Tax.Acc SF) (hx : x ∈ sumAtRank f64 g.toF r) :
+    (((sumAtRank f64 g.toF r').filter (fun y => decide (popTo y.1 r = x.1))).map
+        (fun y => kreportBp y.2.fw (g.W * g.scaled))).sum ≤ kreportBp x.2.fw (g.W * g.scaled) + 1 :=
+  kreport_parent_children g hv r r' hr hT hsmall hn x hx
+
+/-- … and it does happen (kernel-checked; `N = 7`, two matches of 4 and 1 hashes in two phyla of one superkingdom):
+the phyla report 4 and 1 bp, the superkingdom — whose double `4/7 + 1/7` times 7 is 4.999… — reports 4 -/
+theorem kreport_truncation_example :
+    let g : Gather Nat := ⟨7, 7, 1, [⟨4, 4, [some 0, some 1]⟩, ⟨1, 1, [some 0, some 2]⟩]⟩
+    g.Valid ∧
+    (sumAtRank f64 g.toF 0).map (fun x => kreportBp x.2.fw 7) = [4] ∧
+    (sumAtRank f64 g.toF 1).map (fun x => kreportBp x.2.fw 7) = [4, 1] := by
+  refine ⟨⟨by decide, by decide, by decide, by decide, by decide, by decide⟩, by decide +kernel, by decide +kernel⟩
 
 end Float
 
